@@ -122,7 +122,8 @@ def e2e_part(spec, part):
             sim.regs[35184] = rnd.choice((0, 1, 2))        # battery mode (0 = no battery seen by the polls)
             v2 = variant != "v1"
         else:
-            sim = models.es_sim(fw=b"2225F" if variant == "v2" else b"02525")
+            # (v1 = ARM fw 5: oldest command set; v1arm = ARM fw 14 but DSP too old for eco-mode v2: the middle branch of the ES mode setters)
+            sim = models.es_sim(fw={"v2": b"2225F", "v1arm": b"1414E"}.get(variant, b"02525"))
             v2 = variant == "v2"
         # prior contents of the four groups
         prior_cls = rnd.choice(("fulltime-on", "typed", "typed", "garbage", "off", "typed-on"))
@@ -340,7 +341,7 @@ def plan(tier, seed):
     specs = [{"mode": "enc", "seed": f"{seed}:C19:enc", "sstride": 10 if tier == "quick" else 1},
              {"mode": "dt", "seed": f"{seed}:C19:dt"}]
     n = 25 if tier == "quick" else 400
-    for fam, variants in (("ET", ["v2", "v1", "745", "nopeak"]), ("ES", ["v1", "v2"])):
+    for fam, variants in (("ET", ["v2", "v1", "745", "nopeak"]), ("ES", ["v1", "v2", "v1arm"])):
         for v in variants:
             for port in ((8899, 502) if fam == "ET" else (8899,)):
                 for k in range(1 if tier == "quick" else 2):
